@@ -665,13 +665,14 @@ spec fn head(t: Type) -> int {
         Type::Function(..) => 11, Type::Blob(..) => 12, Type::ExternBlob(..) => 13, Type::Enum(..) => 14,
     }
 }
-/// same constructor; the same length for tuples; the same field names for blobs and the same
-/// variant names for enums
+/// same constructor; the same length for tuples; the same field names for blobs, the same
+/// variant names for enums; the same number of parameters for functions
 spec fn shape_eq(x: Type, y: Type) -> bool {
     &&& head(x) == head(y)
     &&& (x is Tuple ==> x->Tuple_0.len() == y->Tuple_0.len())
     &&& (x is Blob ==> x->Blob_2@.dom() == y->Blob_2@.dom())
     &&& (x is Enum ==> x->Enum_2@.dom() == y->Enum_2@.dom())
+    &&& (x is Function ==> x->Function_0.len() == y->Function_0.len())
 }
 /// type of the class of node `i`
 spec fn cty(ts: Seq<TypeNode>, i: int) -> Type { ts[rep0(ts, i)].ty }
@@ -850,6 +851,26 @@ spec fn decl_clash(ts0: Seq<TypeNode>, vs: Seq<TypeVariable>, e: Expression) -> 
             let t = ty_of(ts0, vs[blob as int].ty);
             !(t is Unknown) && !(t is Blob)
         }
+        _ => false,
+    }
+}
+/// a use of a variable that contradicts what is already known about the variable's type: a field the
+/// blob does not have (or not a blob), a constant index outside the tuple (or not a tuple), a call
+/// of a non-function or with the wrong number of arguments
+spec fn read_clash(ts0: Seq<TypeNode>, vs: Seq<TypeVariable>, e: Expression) -> bool {
+    match e {
+        Expression::BlobAccess { value, field, .. } => *value is Read && {
+            let t = ty_of(ts0, vs[value->Read_var as int].ty);
+            !(t is Unknown) && (!(t is Blob || t is ExternBlob) || (t is Blob && !t->Blob_2@.dom().contains(field)))
+        },
+        Expression::Index { value, index, .. } => *value is Read && *index is Int && {
+            let t = ty_of(ts0, vs[value->Read_var as int].ty);
+            !(t is Unknown) && (!(t is Tuple) || index->Int_0 >= t->Tuple_0.len())
+        },
+        Expression::Call { function, args, .. } => *function is Read && {
+            let t = ty_of(ts0, vs[function->Read_var as int].ty);
+            !(t is Unknown) && (!(t is Function) || t->Function_0.len() != args@.len())
+        },
         _ => false,
     }
 }
@@ -1863,6 +1884,8 @@ impl TypeChecker {
             r is Ok ==> case_recorded(final(self).types@, *expression, old(self).variables@), //# C05 expression.case_requires_an_enum_with_every_arm_and_exactly_the_arms_without_else
             r is Ok ==> blob_instance_ok(old(self).types@, old(self).variables@, *expression), //# C05 expression.an_accepted_blob_instance_names_exactly_the_fields_of_the_blob
             decl_clash(old(self).types@, old(self).variables@, *expression) ==> r is Err, //# C05 expression.unknown_variant_and_instance_of_a_non_blob_or_externblob_are_rejected
+            r is Ok && *expression is Read ==> shape_eq(ty_of(old(self).types@, old(self).variables@[expression->Read_var as int].ty), ty_of(final(self).types@, r->Ok_0.1)), //# C03,C05 expression.reading_a_variable_gives_its_type_or_an_instance_of_it
+            read_clash(old(self).types@, old(self).variables@, *expression) ==> r is Err, //# C03,C05 expression.a_use_that_contradicts_the_known_type_of_a_variable_is_rejected
 //@   endspec
 //@   ghost entry
         hide(wf_forest); hide(ids_closed); hide(TypeChecker::vars_valid);
@@ -1883,7 +1906,8 @@ impl TypeChecker {
                             invariant
                                 self.inv2(), self.grows(old(self)), n == self.variables@.len(), vs == self.variables@, il == ctx.inside_loop, ip == ctx.inside_pure, self.types@.len() >= n1, //# C04,C05 expression.loop1.aux1
                                 ret is Some ==> self.valid(ret->Some_0), self.valid(ret_ty), //# C07 expression.loop1.aux2
-                                it.seq().len() == args@.len(), args@.len() == params@.len(), //# - expression.loop1.aux3
+                                args@.len() == params@.len(), //# C03 expression.loop1.a_call_passes_as_many_arguments_as_the_function_has_parameters
+                                it.seq().len() == args@.len(), //# - expression.loop1.aux3
                                 forall|k: int| 0 <= k < args@.len() ==> *(#[trigger] it.seq()[k]).0 == args@[k] && *it.seq()[k].1 == params@[k], //# - expression.loop1.aux4
                                 forall|k: int| 0 <= k < params@.len() ==> ((#[trigger] params@[k]).0 as int) < n1, //# C07 expression.loop1.aux5
                                 forall|k: int| 0 <= k < args@.len() ==> e_ok(#[trigger] args@[k], n), //# C07 expression.loop1.aux6
